@@ -16,7 +16,14 @@ def inst(x):
 def kf_pytz_second_pass(fl):
     """known finding C01-pytz-fold: a pytz datetime in the second pass of a repeated hour carries fold=0, so
     instance() re-creates the first pass (one offset change away)"""
-    return fl.get("kind") == "pytz" and fl.get("ambiguous") is True and fl.get("is_dst") is False
+    if not (fl.get("kind") == "pytz" and fl.get("ambiguous") is True and "src" in fl and "got" in fl):
+        return False
+    import datetime as dt_
+
+    # second pass = the smaller of the two candidate offsets; usually that is standard time (is_dst False), but in a
+    # transition between two daylight offsets (Europe/London 1942: +02:00 -> +01:00) both passes have is_dst True
+    a, b = dt_.datetime.fromisoformat(fl["src"]), dt_.datetime.fromisoformat(fl["got"])
+    return a.replace(tzinfo=None) == b.replace(tzinfo=None) and a.utcoffset() < b.utcoffset()
 
 
 def kf_pytz_lmt_rounding(fl):
